@@ -52,6 +52,7 @@ type typedClients struct {
 	override     *url.URL
 	overrideText string
 	withURL      func(context.Context, *url.URL) context.Context
+	literals     []string // the literal segments of the package's path templates
 }
 
 // ---------------------------------------------------------------- trees
@@ -710,6 +711,10 @@ type vgen struct {
 	// everything in them is something the property says must be delivered. The others also use delimiters,
 	// quotes, empty text and empty arrays, for which an error is as good as exact delivery.
 	edgeText bool
+	// literals: the literal segments of the package's path templates. A text parameter sometimes begins with one of
+	// them (a user called "megan" next to the route /users/me): which route a request takes and what the parameter
+	// holds must not depend on such a coincidence.
+	literals []string
 }
 
 const alnum = "abcdefghijklmnopqrstuvwxyz0123456789"
@@ -719,6 +724,14 @@ var edgeTexts = []string{"a b", "x+y", "p%q", "u/v", "k=v", "q?r#s&t", "é✓ü"
 func (g *vgen) text() string {
 	if g.edgeText && !g.params && g.r.intn(3) == 0 {
 		return edgeTexts[g.r.intn(len(edgeTexts))]
+	}
+	if g.params && len(g.literals) > 0 && !g.small && g.r.intn(6) == 0 {
+		lit := g.literals[g.r.intn(len(g.literals))]
+		b := make([]byte, 1+g.r.intn(3))
+		for i := range b {
+			b[i] = alnum[g.r.intn(len(alnum))]
+		}
+		return lit + string(b)
 	}
 	n := 1 + g.r.intn(8)
 	if g.small {
@@ -745,7 +758,11 @@ func (g *vgen) hinted(hint string) (string, bool) {
 	case strings.Contains(lh, "email"):
 		return "u" + strconv.Itoa(g.r.intn(1000)) + "@h" + strconv.Itoa(g.r.intn(100)) + ".test", true
 	case strings.Contains(lh, "hostname"):
-		return "h" + strconv.Itoa(g.r.intn(1000)) + ".sim.test", true
+		h := "h" + strconv.Itoa(g.r.intn(1000)) + ".sim.test"
+		if g.r.intn(4) == 0 {
+			h += "." // an absolute name
+		}
+		return h, true
 	}
 	return "", false
 }
@@ -1432,7 +1449,7 @@ func doTyped(ctx context.Context, cls *typedClients, impls map[string][]reflect.
 		return
 	}
 	mt := m.Type()
-	g := &vgen{r: vrng{s: c.V}, edge: c.Edge, impls: impls, small: c.V&1 == 0, op: c.TOp, edgeText: c.Edge && c.V&2 != 0}
+	g := &vgen{r: vrng{s: c.V}, edge: c.Edge, impls: impls, small: c.V&1 == 0, op: c.TOp, edgeText: c.Edge && c.V&2 != 0, literals: cls.literals}
 	in := []reflect.Value{reflect.ValueOf(ctx)}
 	if first == 2 {
 		in = append(in, reflect.ValueOf(target))
